@@ -41,7 +41,11 @@ void enum_cleanup()
 
          if (prev->IsNotNullChunk())
          {
-            if (prev->Is(CT_COMMA))
+            if (prev->Is(CT_IGNORED))
+            {
+               // the last line of the enum body lies in a disabled region: leave it alone
+            }
+            else if (prev->Is(CT_COMMA))
             {
                log_rule_B("mod_enum_last_comma");
 
